@@ -200,12 +200,13 @@ def make_machine(plugin: str, pool: Pool, ctx: Ctx, stats: collections.Counter, 
                     shutil.rmtree(d, ignore_errors=True)
             return refs[key]
 
-        def do_run(self, key: str, hashseed: int) -> None:
+        def do_run(self, key: str, hashseed: int, spelling: str = "default") -> None:
             ref_seed, ref = self.reference(key)
-            r = gen.run_generator(plugin, self.out, models=pool.lists[key], hashseed=hashseed, timeout=1800)
+            r = gen.run_generator(plugin, self.out, models=pool.lists[key], hashseed=hashseed, timeout=1800, spelling=spelling)
             stats["runs"] += 1
-            nontrivial = (self.last_key not in (None, key)) or self.dirty or hashseed != ref_seed
-            self.history.append(["run", key, hashseed])
+            stats[f"runs_spelling_{spelling}"] += 1
+            nontrivial = (self.last_key not in (None, key)) or self.dirty or hashseed != ref_seed or spelling != "default"
+            self.history.append(["run", key, hashseed] + ([spelling] if spelling != "default" else []))
             if nontrivial:
                 stats["nontrivial_runs"] += 1
             stats["histories_hash"] = 0
@@ -231,9 +232,10 @@ def make_machine(plugin: str, pool: Pool, ctx: Ctx, stats: collections.Counter, 
             self.last_key = key
             self.dirty = False
 
-        @rule(k=st.integers(0, len(pool.keys) - 1), hs=st.one_of(st.sampled_from([0, 1, 2, 987654321]), st.integers(0, 2**32 - 1)))
-        def run(self, k, hs):
-            self.do_run(pool.keys[k], hs)
+        @rule(k=st.integers(0, len(pool.keys) - 1), hs=st.one_of(st.sampled_from([0, 1, 2, 987654321]), st.integers(0, 2**32 - 1)),
+              sp=st.sampled_from(["default", "default", "cwd", "relative"]))
+        def run(self, k, hs, sp):
+            self.do_run(pool.keys[k], hs, sp)
 
         @precondition(lambda self: self.last_key is not None)
         @rule(hs=st.integers(0, 2**32 - 1))
@@ -428,7 +430,7 @@ def replay(ctx: Ctx, path: str) -> int:
                 if step[0] == "run":
                     if step[1] not in pool.lists:
                         raise HarnessError(f"model list {step[1]} is not in the pool of this tier/seed")
-                    mach.do_run(step[1], step[2])
+                    mach.do_run(step[1], step[2], step[3] if len(step) > 3 else "default")
                 elif step[0] == "plant":
                     mach._plant(step[1], step[2])
         finally:
